@@ -39,6 +39,9 @@ class Triangle(abc.Set):
     """
 
     def __init__(self, cells: Sequence[Cell]) -> None:
+        # materialise once so that generators and other one-shot iterables are not exhausted
+        # by the validation pass below
+        cells = list(cells)
         if any(not isinstance(cell, Cell) for cell in cells):
             raise TriangleError("Bermuda triangles can only hold `Cell`s")
 
